@@ -16,6 +16,10 @@ fn arg(args: &[String], name: &str) -> Option<String> {
 
 fn main() {
     let args: Vec<String> = std::env::args().collect();
+    if args.len() >= 2 && args[1] == "gen-corpus" {
+        install_quiet_panic_hook();
+        std::process::exit(gen_corpus());
+    }
     if args.len() < 3 {
         eprintln!("usage: rv check|worker|replay ...");
         std::process::exit(2);
@@ -25,9 +29,95 @@ fn main() {
         "check" => check(&args),
         "worker" => worker(&args),
         "replay" => replay(&args),
+        "gen-corpus" => gen_corpus(),
         _ => 2,
     };
     std::process::exit(code);
+}
+
+/// (re)create the small committed seed corpora for the fuzz targets from the reference responder
+fn gen_corpus() -> i32 {
+    use rv::refcodec as rc;
+    use rv::refproto::*;
+    let base = format!("{}/corpus", VERIF_DIR);
+    let put = |target: &str, name: &str, bytes: &[u8]| {
+        let d = format!("{}/{}", base, target);
+        let _ = std::fs::create_dir_all(&d);
+        std::fs::write(format!("{}/{}", d, name), bytes).unwrap();
+    };
+    let resp = Responder::new(&[1u8; 32], &[2u8; 32]);
+    let creq = build_request(Proto::Classic, &[0xaa; 64], 1024, &[], None);
+    let ireq = build_request(Proto::Ietf, &[0xbb; 32], 1024, &[VER_DRAFT13], None);
+    let ireq_srv = build_request(Proto::Ietf, &[0xcc; 32], 1028, &[1, VER_DRAFT13], Some(&[0x11; 32]));
+    let cresp = resp.respond_batch(Proto::Classic, &[creq.clone(), filler_request(Proto::Classic, 1), filler_request(Proto::Classic, 2)], 1_700_000_000_000_000);
+    let iresp = resp.respond_batch(Proto::Ietf, &[ireq.clone(), filler_request(Proto::Ietf, 1)], 1_700_000_000);
+    // codec_diff: messages of several shapes
+    put("codec_diff", "classic_request", &creq);
+    put("codec_diff", "ietf_request_payload", &ireq[12..]);
+    put("codec_diff", "classic_response", &cresp[0].assemble());
+    put("codec_diff", "ietf_response_payload", &iresp[1].assemble()[12..]);
+    put("codec_diff", "cert", &cresp[0].cert().encode());
+    put("codec_diff", "srep", &iresp[0].srep.encode());
+    put("codec_diff", "empty", &[0, 0, 0, 0]);
+    put("codec_diff", "single", &rc::Msg::new().with(rc::NONC, &[1, 2, 3, 4]).encode());
+    // request_classify
+    put("request_classify", "classic", &creq);
+    put("request_classify", "ietf", &ireq);
+    put("request_classify", "ietf_srv", &ireq_srv);
+    put("request_classify", "classic_1500", &build_request(Proto::Classic, &[0xdd; 64], 1500, &[], None));
+    // server_seq: [len_lo, len_hi, flags] + body records
+    let rec = |flags: u8, body: &[u8]| {
+        let mut v = vec![(body.len() & 0xff) as u8, (body.len() >> 8) as u8, flags];
+        v.extend_from_slice(body);
+        v
+    };
+    let mut s1 = rec(1, &[0x41; 64]);
+    s1.extend(rec(2, &[0x42; 32]));
+    s1.extend(rec(0, &[0u8; 16]));
+    put("server_seq", "mixed", &s1);
+    let mut s2 = vec![];
+    for k in 0..9u8 {
+        s2.extend(rec(if k % 2 == 0 { 1 } else { 2 }, &[k; 64]));
+    }
+    put("server_seq", "burst9", &s2);
+    let mut s3 = rec(0x81, &[0x43; 112]);
+    s3.extend(rec(0x82, &[0x44; 80]));
+    s3.extend(rec(3, &[0x45; 8]));
+    put("server_seq", "patched_headers", &s3);
+    // envelope_blob: edit scripts against the genuine blob and raw blobs
+    put("envelope_blob", "edit1", &[1, 0, 0, 1]);
+    put("envelope_blob", "edit2", &[1, 0, 30, 0x80, 0, 60, 1]);
+    put("envelope_blob", "noedit", &[1]);
+    put("envelope_blob", "raw", &{
+        let mut v = vec![0u8, 24, 0, 12, 0];
+        v.extend_from_slice(&[7u8; 24 + 12 + 40 + 16]);
+        v
+    });
+    // merkle_ops / sign_chunks: structured headers followed by data
+    put("merkle_ops", "two_batches", &[1, 1, 5, 3, 1, 2, 3, 0, 2, 9, 9, 1, 7, 4, 1, 1, 1, 1, 2, 3, 5, 5, 5]);
+    put("merkle_ops", "classic_three", &[0, 6, 9, 1, 1, 1, 2, 1, 3, 0, 0, 2, 4, 4, 8, 1, 1, 1, 1, 1, 1, 1, 1]);
+    let mut sc = vec![9u8; 32];
+    sc.extend_from_slice(&[2, 3, 1, 2, 3, 0, 1, 4, 9, 9, 9, 9, 1, 2, 7, 7]);
+    put("sign_chunks", "two_messages", &sc);
+    let mut sc2 = vec![0x31u8; 32];
+    sc2[0] = 1;
+    sc2.extend_from_slice(&[1, 5, 1, 2, 3, 4, 5]);
+    put("sign_chunks", "sigbit", &sc2);
+    // self-check: every seed input passes its target
+    let mut bad = 0;
+    for (target, _) in rv::fuzzapi::TARGETS.iter() {
+        if let Ok(rd) = std::fs::read_dir(format!("{}/{}", base, target)) {
+            for e in rd.flatten() {
+                let b = std::fs::read(e.path()).unwrap();
+                if let Err(m) = rv::fuzzapi::run_target(target, &b) {
+                    println!("seed {} fails its own target: {}", e.path().display(), m);
+                    bad += 1;
+                }
+            }
+        }
+    }
+    println!("corpus written to {} ({} self-check failures)", base, bad);
+    if bad == 0 { 0 } else { 1 }
 }
 
 fn seed_from_env() -> u64 {
@@ -72,6 +162,23 @@ fn replay(args: &[String]) -> i32 {
         Some(d) => d,
         None => return 2,
     };
+    if let Some(target) = rf.sub.strip_prefix("fuzz:") {
+        if std::env::var("RV_TOLERATE_KNOWN").is_err() {
+            std::env::set_var("RV_FUZZ_STRICT", "1");
+        }
+        let bytes = rf.case.get("bytes").and_then(|b| b.as_str()).map(rv::refcodec::unhex).unwrap_or_default();
+        return match rv::fuzzapi::run_target(target, &bytes) {
+            Ok(()) => {
+                println!("replay {}: property {} held", path, rf.property);
+                0
+            }
+            Err(m) => {
+                println!("replay {}: {}", path, m);
+                println!("VIOLATION property={} replay={}", rf.property, path);
+                1
+            }
+        };
+    }
     let tier = Tier::parse(&std::env::var("VERIF_TIER").unwrap_or_default());
     let mut ctx = Ctx::new(&rf.property, tier, seed_from_env(), 0, 1);
     ctx.strict = std::env::var("RV_TOLERATE_KNOWN").is_err();
@@ -122,6 +229,13 @@ fn check(args: &[String]) -> i32 {
                 }
             };
             replayed += 1;
+            if let Some(target) = rf.sub.strip_prefix("fuzz:") {
+                let bytes = rf.case.get("bytes").and_then(|b| b.as_str()).map(rv::refcodec::unhex).unwrap_or_default();
+                if let Err(m) = rv::fuzzapi::run_target(target, &bytes) {
+                    violations.push((Violation { sub: rf.sub.clone(), sig: format!("fuzz-regression|{}", target), what: m, case: rf.case.clone() }, f.display().to_string()));
+                }
+                continue;
+            }
             if let Err(v) = (def.replay)(&mut ctx, &rf.sub, &rf.case) {
                 violations.push((Violation { sub: rf.sub.clone(), sig: v.sig, what: v.what, case: rf.case.clone() }, f.display().to_string()));
             }
@@ -198,6 +312,25 @@ fn check(args: &[String]) -> i32 {
     }
     inconclusive.extend(merged.inconclusive.iter().cloned());
 
+    // 2b. coverage-guided campaigns (thorough tier only)
+    let mut fuzz_report = vec![];
+    if tier == Tier::Thorough && std::env::var("RV_NO_FUZZ").is_err() {
+        for (target, props) in rv::fuzzapi::TARGETS.iter() {
+            if !props.contains(&id.as_str()) {
+                continue;
+            }
+            match run_fuzz_campaign(&id, target, seed) {
+                Ok((report, crashes)) => {
+                    fuzz_report.push(report);
+                    for (v, path) in crashes {
+                        violations.push((v, path));
+                    }
+                }
+                Err(e) => inconclusive.push(format!("fuzz target {}: {}", target, e)),
+            }
+        }
+    }
+
     // 3. verdict lines
     for (sig, (count, example)) in &merged.known {
         let what = known_open.iter().find(|k| &k.signature == sig).map(|k| k.what.clone()).unwrap_or_default();
@@ -230,6 +363,7 @@ fn check(args: &[String]) -> i32 {
         "known_findings_observed": merged.known.iter().map(|(k, v)| (k.clone(), json!(v.0))).collect::<BTreeMap<_, _>>(),
         "notes": merged.notes,
         "inconclusive": inconclusive,
+        "fuzz_campaigns": fuzz_report,
     });
     if !merged.exhaustive_spaces.is_empty() {
         coverage["exhaustive"] = json!(true);
@@ -323,5 +457,115 @@ fn save_violation(id: &str, v: &Violation) -> String {
     path.display().to_string()
 }
 
-#[allow(dead_code)]
-fn unused(_: Value) {}
+/// Build (if needed) and run one libFuzzer campaign; returns a report and the crashes converted to replay files.
+fn run_fuzz_campaign(id: &str, target: &str, seed: u64) -> Result<(Value, Vec<(Violation, String)>), String> {
+    let secs: u64 = std::env::var("RV_FUZZ_SECS").ok().and_then(|s| s.parse().ok()).unwrap_or(150);
+    let procs: u64 = std::env::var("RV_FUZZ_PROCS").ok().and_then(|s| s.parse().ok()).unwrap_or(4);
+    let hdir = format!("{}/harness", VERIF_DIR);
+    let logdir = format!("{}/out/logs", VERIF_DIR);
+    let build = Command::new("cargo")
+        .args(["+nightly", "fuzz", "build", target])
+        .current_dir(&hdir)
+        .env("CARGO_NET_OFFLINE", "true")
+        .stdin(Stdio::null())
+        .stdout(Stdio::from(std::fs::File::create(format!("{}/fuzz-build-{}.log", logdir, target)).map_err(|e| e.to_string())?))
+        .stderr(Stdio::from(std::fs::File::create(format!("{}/fuzz-build-{}.err", logdir, target)).map_err(|e| e.to_string())?))
+        .status()
+        .map_err(|e| format!("cargo fuzz build: {}", e))?;
+    if !build.success() {
+        return Err(format!("cargo +nightly fuzz build {} failed (see {}/fuzz-build-{}.err)", target, logdir, target));
+    }
+    let bin = format!("{}/target/x86_64-unknown-linux-gnu/release/{}", VERIF_DIR, target);
+    let work = format!("{}/out/fuzz/{}-{}", VERIF_DIR, target, id);
+    let _ = std::fs::remove_dir_all(&work);
+    let corpus = format!("{}/corpus", work);
+    let artifacts = format!("{}/artifacts/", work);
+    std::fs::create_dir_all(&corpus).map_err(|e| e.to_string())?;
+    std::fs::create_dir_all(&artifacts).map_err(|e| e.to_string())?;
+    // fresh working corpus = committed seed corpus (valid examples) + whatever the fuzzer finds
+    let mut seeds = 0;
+    if let Ok(rd) = std::fs::read_dir(format!("{}/corpus/{}", VERIF_DIR, target)) {
+        for e in rd.flatten() {
+            if std::fs::copy(e.path(), format!("{}/{}", corpus, e.file_name().to_string_lossy())).is_ok() {
+                seeds += 1;
+            }
+        }
+    }
+    let start = Instant::now();
+    let mut kids = vec![];
+    for j in 0..procs {
+        let log = std::fs::File::create(format!("{}/fuzz-{}-{}-{}.log", logdir, target, id, j)).map_err(|e| e.to_string())?;
+        let child = Command::new(&bin)
+            .arg(&corpus)
+            .args([
+                format!("-max_total_time={}", secs),
+                format!("-seed={}", seed.wrapping_mul(31).wrapping_add(j + 1) % 4_000_000_000 + 1),
+                "-len_control=0".to_string(),
+                "-max_len=4096".to_string(),
+                "-timeout=30".to_string(),
+                "-rss_limit_mb=4096".to_string(),
+                "-print_final_stats=1".to_string(),
+                format!("-artifact_prefix={}", artifacts),
+            ])
+            .env("RUST_BACKTRACE", "0")
+            .stdin(Stdio::null())
+            .stdout(Stdio::null())
+            .stderr(Stdio::from(log))
+            .spawn()
+            .map_err(|e| format!("spawn {}: {}", bin, e))?;
+        kids.push((j, child));
+    }
+    let mut execs = 0u64;
+    for (j, mut c) in kids {
+        let deadline = Duration::from_secs(secs + 120);
+        loop {
+            match c.try_wait() {
+                Ok(Some(_)) => break,
+                Ok(None) => {
+                    if start.elapsed() > deadline {
+                        let _ = c.kill();
+                        let _ = c.wait();
+                        break;
+                    }
+                    std::thread::sleep(Duration::from_millis(200));
+                }
+                Err(_) => break,
+            }
+        }
+        if let Ok(txt) = std::fs::read_to_string(format!("{}/fuzz-{}-{}-{}.log", logdir, target, id, j)) {
+            for l in txt.lines() {
+                if let Some(n) = l.strip_prefix("stat::number_of_executed_units:") {
+                    execs += n.trim().parse::<u64>().unwrap_or(0);
+                }
+            }
+        }
+    }
+    let corpus_files = std::fs::read_dir(&corpus).map(|r| r.count()).unwrap_or(0);
+    let mut crashes = vec![];
+    if let Ok(rd) = std::fs::read_dir(&artifacts) {
+        for e in rd.flatten() {
+            let name = e.file_name().to_string_lossy().to_string();
+            if !(name.starts_with("crash-") || name.starts_with("oom-") || name.starts_with("timeout-")) {
+                continue;
+            }
+            let bytes = std::fs::read(e.path()).unwrap_or_default();
+            // which property does this input violate? ask the in-process twin (strictly)
+            std::env::set_var("RV_FUZZ_STRICT", "1");
+            let msg = match rv::fuzzapi::run_target(target, &bytes) {
+                Err(m) => m,
+                Ok(()) => format!("libFuzzer reported {} but the in-process replay passes (timeout/oom or non-deterministic)", name),
+            };
+            if !msg.contains(&format!("property={}", id)) && msg.contains("VIOLATION property=") {
+                continue; // belongs to the sibling property of a shared target
+            }
+            if name.starts_with("oom-") || name.starts_with("timeout-") {
+                continue; // resource limits are inconclusive, never violations
+            }
+            let v = Violation { sub: format!("fuzz:{}", target), sig: format!("fuzz|{}", msg.split(" :: ").next().unwrap_or("").replace("VIOLATION ", "")), what: msg, case: json!({ "bytes": rv::refcodec::hex(&bytes) }) };
+            let path = save_violation(id, &v);
+            crashes.push((v, path));
+        }
+    }
+    let report = json!({"target": target, "executions": execs, "processes": procs, "seconds": secs, "seed_corpus_files": seeds, "final_corpus_files": corpus_files, "crashes": crashes.len()});
+    Ok((report, crashes))
+}
